@@ -67,7 +67,7 @@ def main():
                      and d1.returncode != 0 and d0.returncode == 0)
         out['confirmed'] = confirmed
         out['checks'] = {}
-        envk = dict(os.environ, KNEEMON_SRC=os.path.join(tmp, 'src'))
+        envk = dict(os.environ, KNEEMON_SRC=os.path.join(tmp, 'src'), KNEEMON_NO_EVIDENCE='1')
         for prop in (a.props.split(',') if a.props else [a.prop]):
             c = sh([os.path.join(HERE, 'check'), prop, a.tier], env=envk)
             keys = [l.strip() for l in c.stdout.splitlines() if l.startswith('  violation key=')]
@@ -95,7 +95,6 @@ def main():
         return 0
     finally:
         shutil.rmtree(tmp, ignore_errors=True)
-        subprocess.run(['git', '-C', HERE, 'checkout', '--', 'evidence'], capture_output=True)
 
 
 if __name__ == '__main__':
